@@ -612,7 +612,7 @@ def run(ctx):
                 do_case(base_args(op="cpp", sel=["int", 0], triggers=copy.deepcopy(t_two), fo=fo, gaia=True, **{"is": is_, "it": it}), fixed)
 
     # ---- systematic random sweep --------------------------------------------------------------------------------
-    n_cpp = ctx.budget(40, 600)          # managers; each x 8 flags x 7 locks
+    n_cpp = ctx.budget(40, 400)          # managers; each x 8 flags x 7 locks
     for _ in range(n_cpp):
         frm = rng.randrange(9)
         trigs = rand_triggers(frm, False)
@@ -627,7 +627,7 @@ def run(ctx):
                         do_case({"op": "cpp", "triggers": trigs, "order": order, "sel": sel, "from": frm, "enum": rng.random() < 0.8,
                                  "fo": fo, "is": is_, "it": it, "lock": rand_lock(lk, trigs[root]), "lock_kind": lk,
                                  "gaia": rng.random() < 0.4, "players": rand_players()}, fixed)
-    n_rp = ctx.budget(25, 400)
+    n_rp = ctx.budget(25, 250)
     for _ in range(n_rp):
         frm = rng.randrange(9)
         trigs = rand_triggers(frm, False)
@@ -642,7 +642,7 @@ def run(ctx):
                         to = rng.randrange(9) if rng.random() < 0.96 else rng.choice([9, -1])
                         do_case({"op": "rp", "triggers": trigs, "order": order, "sel": sel, "to": to, "only": only, "enum": rng.random() < 0.8,
                                  "is": is_, "it": it, "lock": rand_lock(lk, trigs[root]), "lock_kind": lk}, fixed)
-    n_tree = ctx.budget(45, 700)
+    n_tree = ctx.budget(45, 450)
     for _ in range(n_tree):
         frm = rng.randrange(9)
         trigs = rand_triggers(frm, True)
